@@ -66,6 +66,7 @@ Hypothesis Hpts : forall x, In x pts -> dom x.
 
 Notation lp := leaf_points.
 Notation au := (valid_b d pts K).
+Notation oc := false.                 (* the repaired copy radius (fix F46) *)
 
 Definition count_lt (q x : Z) : nat := length (filter (fun y => dd d q y <? dd d q x) pts).
 Definition needed (q x : Z) : Prop := In x pts /\ (count_lt q x < K)%nat.
@@ -180,18 +181,11 @@ Proof.
   - pose proof (Htri (c_p Q) q' x Hdq Hdq' Hx). lia.
 Qed.
 
-(* copy_*: query child qc, bound v, a query q' below qc *)
+(* copy_*: query child qc, bound v, a query q' below qc: the same statement (two max_dist) *)
 Lemma audit_copy : forall qc ub v q' x,
   node_ok qc -> au true qc ub = true -> ub0 ub = Some v -> In q' (lp qc) ->
-  v + c_maxd qc < dd d (c_p qc) x -> dom x -> ~ needed q' x.
-Proof.
-  intros qc ub v q' x HQ Ha Hv Hq' Hfar Hx.
-  unfold valid_b in Ha. rewrite Hv in Ha. rewrite forallb_forall in Ha. specialize (Ha q' Hq').
-  apply Nat.leb_le in Ha.
-  pose proof (node_ok_dom qc HQ) as Hdq. pose proof (Hpts q' (proj2 HQ q' Hq')) as Hdq'.
-  apply (far_not_needed q' x _ Ha).
-  pose proof (Htri (c_p qc) q' x Hdq Hdq' Hx). lia.
-Qed.
+  v + c_maxd qc + c_maxd qc < dd d (c_p qc) x -> dom x -> ~ needed q' x.
+Proof. intros qc ub v q' x HQ Ha. apply (audit_descend qc ub v q' x HQ). exact Ha. Qed.
 
 (* ---------- the sets ---------- *)
 Definition zero_ok (q : Z) (zero : list dnode) : Prop :=
@@ -234,27 +228,27 @@ Proof. intros q n v a x Hq Hn H Hx. pose proof (below_far q n x Hq Hn Hx). lia. 
 
 (* ---------- copy_zero_set ---------- *)
 Definition keepz (qc : ctree) (ub : list ext) (e : dnode) : bool :=
-  shell (fst e) (c_pard qc) (eadd (ub0 ub) (c_maxd qc)) &&
-  le_e (dd d (c_p qc) (c_p (snd e))) (eadd (ub0 ub) (c_maxd qc)).
+  shell (fst e) (c_pard qc) (eadd (ub0 ub) (c_maxd qc + c_maxd qc)) &&
+  le_e (dd d (c_p qc) (c_p (snd e))) (eadd (ub0 ub) (c_maxd qc + c_maxd qc)).
 
 Lemma copy_zero_set_cons : forall qc ub e rest ok,
-  copy_zero_set d au qc ub (e :: rest) ok =
+  copy_zero_set oc d au qc ub (e :: rest) ok =
   if keepz qc ub e then
     let dq := dd d (c_p qc) (c_p (snd e)) in
-    let '(ub2, out, ok2) := copy_zero_set d au qc (if lt_e dq (ub0 ub) then ub_update ub dq else ub) rest
+    let '(ub2, out, ok2) := copy_zero_set oc d au qc (if lt_e dq (ub0 ub) then ub_update ub dq else ub) rest
                                           (ok && au true qc ub) in
     (ub2, (dq, snd e) :: out, ok2)
-  else copy_zero_set d au qc ub rest (ok && au true qc ub).
+  else copy_zero_set oc d au qc ub rest (ok && au true qc ub).
 Proof.
-  intros qc ub [edist en] rest ok. unfold keepz. cbn [copy_zero_set fst snd].
-  destruct (shell edist (c_pard qc) (eadd (ub0 ub) (c_maxd qc))); cbn [andb]; [|reflexivity].
-  destruct (le_e (dd d (c_p qc) (c_p en)) (eadd (ub0 ub) (c_maxd qc))); reflexivity.
+  intros qc ub [edist en] rest ok. unfold keepz. cbn [copy_zero_set fst snd qmd].
+  destruct (shell edist (c_pard qc) (eadd (ub0 ub) (c_maxd qc + c_maxd qc))); cbn [andb]; [|reflexivity].
+  destruct (le_e (dd d (c_p qc) (c_p en)) (eadd (ub0 ub) (c_maxd qc + c_maxd qc))); reflexivity.
 Qed.
 
 Lemma keepz_false_far : forall qc q ub e,
   keepz qc ub e = false -> node_ok qc -> dom q -> dd d q (c_p qc) <= c_pard qc ->
   fst e = dd d q (c_p (snd e)) -> dom (c_p (snd e)) ->
-  exists v, ub0 ub = Some v /\ v + c_maxd qc < dd d (c_p qc) (c_p (snd e)).
+  exists v, ub0 ub = Some v /\ v + c_maxd qc + c_maxd qc < dd d (c_p qc) (c_p (snd e)).
 Proof.
   intros qc q ub [edist en] H Hqc Hq Hpd Hdist Hde. cbn [fst snd] in *. unfold keepz in H. cbn [fst snd] in H.
   pose proof (node_ok_dom qc Hqc) as Hdc.
@@ -267,7 +261,7 @@ Proof.
 Qed.
 
 Lemma copy_zero_set_spec : forall qc q zero ub ok ub' out ok',
-  copy_zero_set d au qc ub zero ok = (ub', out, ok') -> ok' = true ->
+  copy_zero_set oc d au qc ub zero ok = (ub', out, ok') -> ok' = true ->
   node_ok qc -> dom q -> dd d q (c_p qc) <= c_pard qc -> zero_ok q zero ->
   ok = true /\ zero_ok (c_p qc) out /\
   forall q' x, In q' (lp qc) -> needed q' x -> in_zero zero x -> in_zero out x.
@@ -279,7 +273,7 @@ Proof.
     pose proof (node_ok_dom (snd e) Hen) as Hde.
     rewrite copy_zero_set_cons in E. destruct (keepz qc ub e) eqn:Hk.
     + cbv zeta in E.
-      destruct (copy_zero_set d au qc _ rest (ok && au true qc ub)) as [[ub2 out2] ok2] eqn:E2.
+      destruct (copy_zero_set oc d au qc _ rest (ok && au true qc ub)) as [[ub2 out2] ok2] eqn:E2.
       injection E as <- <- <-.
       destruct (IH _ _ _ _ _ E2 Hok' Hqc Hq Hpd Hz) as [Hok1 [Hzo Hcov]].
       apply andb_true_iff in Hok1. destruct Hok1 as [Hok _]. split; [assumption|]. split.
@@ -299,30 +293,30 @@ Qed.
 
 (* ---------- copy_slot / copy_cover_sets ---------- *)
 Definition keepc (qc : ctree) (ub : list ext) (e : dnode) : bool :=
-  shell (fst e) (c_pard qc) (eadd (eadd (ub0 ub) (c_maxd qc)) (c_maxd (snd e))) &&
-  le_e (dd d (c_p qc) (c_p (snd e))) (eadd (eadd (ub0 ub) (c_maxd qc)) (c_maxd (snd e))).
+  shell (fst e) (c_pard qc) (eadd (eadd (ub0 ub) (c_maxd qc + c_maxd qc)) (c_maxd (snd e))) &&
+  le_e (dd d (c_p qc) (c_p (snd e))) (eadd (eadd (ub0 ub) (c_maxd qc + c_maxd qc)) (c_maxd (snd e))).
 
 Lemma copy_slot_cons : forall qc ub s es e rest ok,
-  copy_slot d au qc ub s ((es, e) :: rest) ok =
+  copy_slot oc d au qc ub s ((es, e) :: rest) ok =
   if Nat.eqb es s then
     if keepc qc ub e then
       let dq := dd d (c_p qc) (c_p (snd e)) in
-      let '(ub2, out, ok2) := copy_slot d au qc (if lt_e dq (ub0 ub) then ub_update ub dq else ub) s rest
+      let '(ub2, out, ok2) := copy_slot oc d au qc (if lt_e dq (ub0 ub) then ub_update ub dq else ub) s rest
                                         (ok && au true qc ub) in
       (ub2, (s, (dq, snd e)) :: out, ok2)
-    else copy_slot d au qc ub s rest (ok && au true qc ub)
-  else copy_slot d au qc ub s rest ok.
+    else copy_slot oc d au qc ub s rest (ok && au true qc ub)
+  else copy_slot oc d au qc ub s rest ok.
 Proof.
-  intros qc ub s es [edist en] rest ok. unfold keepc. cbn [copy_slot fst snd].
+  intros qc ub s es [edist en] rest ok. unfold keepc. cbn [copy_slot fst snd qmd].
   destruct (Nat.eqb es s); [|reflexivity].
-  destruct (shell edist (c_pard qc) (eadd (eadd (ub0 ub) (c_maxd qc)) (c_maxd en))); cbn [andb]; [|reflexivity].
-  destruct (le_e (dd d (c_p qc) (c_p en)) (eadd (eadd (ub0 ub) (c_maxd qc)) (c_maxd en))); reflexivity.
+  destruct (shell edist (c_pard qc) (eadd (eadd (ub0 ub) (c_maxd qc + c_maxd qc)) (c_maxd en))); cbn [andb]; [|reflexivity].
+  destruct (le_e (dd d (c_p qc) (c_p en)) (eadd (eadd (ub0 ub) (c_maxd qc + c_maxd qc)) (c_maxd en))); reflexivity.
 Qed.
 
 Lemma keepc_false_far : forall qc q ub e,
   keepc qc ub e = false -> node_ok qc -> dom q -> dd d q (c_p qc) <= c_pard qc ->
   fst e = dd d q (c_p (snd e)) -> dom (c_p (snd e)) ->
-  exists v, ub0 ub = Some v /\ v + c_maxd qc + c_maxd (snd e) < dd d (c_p qc) (c_p (snd e)).
+  exists v, ub0 ub = Some v /\ v + (c_maxd qc + c_maxd qc) + c_maxd (snd e) < dd d (c_p qc) (c_p (snd e)).
 Proof.
   intros qc q ub [edist en] H Hqc Hq Hpd Hdist Hde. cbn [fst snd] in *. unfold keepc in H. cbn [fst snd] in H.
   pose proof (node_ok_dom qc Hqc) as Hdc.
@@ -342,7 +336,7 @@ Definition from_cover (c : Z) (cover : list centry) (lo hi : nat) (out : list ce
     (lo <= s < hi)%nat /\ dist = dd d c (c_p n) /\ exists dist0, In (s, (dist0, n)) cover.
 
 Lemma copy_slot_spec : forall qc q s cover ub ok ub' out ok',
-  copy_slot d au qc ub s cover ok = (ub', out, ok') -> ok' = true ->
+  copy_slot oc d au qc ub s cover ok = (ub', out, ok') -> ok' = true ->
   node_ok qc -> dom q -> dd d q (c_p qc) <= c_pard qc ->
   (forall dist n, In (s, (dist, n)) cover -> dist = dd d q (c_p n) /\ node_ok n) ->
   ok = true /\ from_cover (c_p qc) cover s (S s) out /\
@@ -365,7 +359,7 @@ Proof.
       pose proof (node_ok_dom en Hen) as Hde.
       destruct (keepc qc ub (edist, en)) eqn:Hk.
       * cbv zeta in E. cbn [snd] in E.
-        destruct (copy_slot d au qc _ s rest (ok && au true qc ub)) as [[ub2 out2] ok2] eqn:E2.
+        destruct (copy_slot oc d au qc _ s rest (ok && au true qc ub)) as [[ub2 out2] ok2] eqn:E2.
         injection E as <- <- <-.
         destruct (IH _ _ _ _ _ E2 Hok' Hqc Hq Hpd Hc') as [Hok1 [Hfr Hcov]].
         apply andb_true_iff in Hok1. destruct Hok1 as [Hok _]. split; [assumption|]. split.
@@ -383,8 +377,9 @@ Proof.
         -- exfalso. injection Hin as <- <-.
            destruct (keepc_false_far qc q ub (edist, en) Hk Hqc Hq Hpd Hdist Hde) as [v [Hv Hfar]].
            cbn [snd] in Hfar.
-           pose proof (far_below (c_p qc) en v (c_maxd qc) x (node_ok_dom qc Hqc) Hen Hfar Hx) as Hfx.
-           exact (audit_copy qc ub v q' x Hqc Hau Hv Hq' Hfx (Hpts x (proj2 Hen x Hx)) Hn).
+           pose proof (far_below (c_p qc) en v (c_maxd qc + c_maxd qc) x (node_ok_dom qc Hqc) Hen Hfar Hx) as Hfx.
+           assert (Hfx' : v + c_maxd qc + c_maxd qc < dd d (c_p qc) x) by lia.
+           exact (audit_copy qc ub v q' x Hqc Hau Hv Hq' Hfx' (Hpts x (proj2 Hen x Hx)) Hn).
         -- apply (Hcov q' x Hq' Hn). now exists dist, n.
     + destruct (IH _ _ _ _ _ E Hok' Hqc Hq Hpd Hc') as [Hok1 [Hfr Hcov]].
       split; [assumption|]. split; [now apply Hfrom|].
@@ -394,7 +389,7 @@ Proof.
 Qed.
 
 Lemma copy_cover_sets_spec : forall qc q cover n s ub ok ub' out ok',
-  copy_cover_sets d au qc ub s n cover ok = (ub', out, ok') -> ok' = true ->
+  copy_cover_sets oc d au qc ub s n cover ok = (ub', out, ok') -> ok' = true ->
   node_ok qc -> dom q -> dd d q (c_p qc) <= c_pard qc ->
   (forall s' dist m, In (s', (dist, m)) cover -> (s <= s' < s + n)%nat -> dist = dd d q (c_p m) /\ node_ok m) ->
   ok = true /\ from_cover (c_p qc) cover s (s + n) out /\
@@ -407,8 +402,8 @@ Proof.
     + intros s' dist m [].
     + intros q' x _ _ [s' [dist [m [_ [Hr _]]]]]. lia.
   - cbn [copy_cover_sets] in E.
-    destruct (copy_slot d au qc ub s cover ok) as [[ub1 out1] ok1] eqn:E1.
-    destruct (copy_cover_sets d au qc ub1 (S s) n cover ok1) as [[ub2 out2] ok2] eqn:E2.
+    destruct (copy_slot oc d au qc ub s cover ok) as [[ub1 out1] ok1] eqn:E1.
+    destruct (copy_cover_sets oc d au qc ub1 (S s) n cover ok1) as [[ub2 out2] ok2] eqn:E2.
     injection E as <- <- <-.
     assert (Hc2 : forall s' dist m, In (s', (dist, m)) cover -> (S s <= s' < S s + n)%nat ->
                                     dist = dd d q (c_p m) /\ node_ok m).
@@ -818,45 +813,45 @@ Qed.
 
 (* ---------- the audit flag only ever goes from true to false ---------- *)
 Lemma copy_zero_set_flag : forall qc zero ub ok ub' out,
-  copy_zero_set d au qc ub zero ok = (ub', out, true) -> ok = true.
+  copy_zero_set oc d au qc ub zero ok = (ub', out, true) -> ok = true.
 Proof.
   intros qc zero. induction zero as [|e rest IH]; intros ub ok ub' out E.
   - cbn [copy_zero_set] in E. now injection E.
   - rewrite copy_zero_set_cons in E. destruct (keepz qc ub e).
-    + cbv zeta in E. destruct (copy_zero_set d au qc _ rest (ok && au true qc ub)) as [[ub2 out2] ok2] eqn:E2.
+    + cbv zeta in E. destruct (copy_zero_set oc d au qc _ rest (ok && au true qc ub)) as [[ub2 out2] ok2] eqn:E2.
       injection E as _ _ ->. apply IH in E2. apply andb_true_iff in E2. apply E2.
     + apply IH in E. apply andb_true_iff in E. apply E.
 Qed.
 
 Lemma copy_slot_flag : forall qc s cover ub ok ub' out,
-  copy_slot d au qc ub s cover ok = (ub', out, true) -> ok = true.
+  copy_slot oc d au qc ub s cover ok = (ub', out, true) -> ok = true.
 Proof.
   intros qc s cover. induction cover as [|[es e] rest IH]; intros ub ok ub' out E.
   - cbn [copy_slot] in E. now injection E.
   - rewrite copy_slot_cons in E. destruct (Nat.eqb es s); [destruct (keepc qc ub e)|].
-    + cbv zeta in E. destruct (copy_slot d au qc _ s rest (ok && au true qc ub)) as [[ub2 out2] ok2] eqn:E2.
+    + cbv zeta in E. destruct (copy_slot oc d au qc _ s rest (ok && au true qc ub)) as [[ub2 out2] ok2] eqn:E2.
       injection E as _ _ ->. apply IH in E2. apply andb_true_iff in E2. apply E2.
     + apply IH in E. apply andb_true_iff in E. apply E.
     + now apply IH in E.
 Qed.
 
 Lemma copy_cover_sets_flag : forall qc cover n s ub ok ub' out,
-  copy_cover_sets d au qc ub s n cover ok = (ub', out, true) -> ok = true.
+  copy_cover_sets oc d au qc ub s n cover ok = (ub', out, true) -> ok = true.
 Proof.
   intros qc cover n. induction n as [|n IH]; intros s ub ok ub' out E.
   - cbn [copy_cover_sets] in E. now injection E.
   - cbn [copy_cover_sets] in E.
-    destruct (copy_slot d au qc ub s cover ok) as [[ub1 out1] ok1] eqn:E1.
-    destruct (copy_cover_sets d au qc ub1 (S s) n cover ok1) as [[ub2 out2] ok2] eqn:E2.
+    destruct (copy_slot oc d au qc ub s cover ok) as [[ub1 out1] ok1] eqn:E1.
+    destruct (copy_cover_sets oc d au qc ub1 (S s) n cover ok1) as [[ub2 out2] ok2] eqn:E2.
     injection E as _ _ ->. apply IH in E2. subst ok1. now apply copy_slot_flag in E1.
 Qed.
 
 Lemma bn_others_cons : forall bn ub zero chi l acc okk,
-  bn_others d K au bn ub zero (chi :: l) acc okk =
+  bn_others oc d K au bn ub zero (chi :: l) acc okk =
   let nub := setter K (eadd (ub0 ub) (c_pard chi)) in
-  let '(nub1, nzero, ok1) := copy_zero_set d au chi nub zero okk in
+  let '(nub1, nzero, ok1) := copy_zero_set oc d au chi nub zero okk in
   let '(rows1, ok2) := bn chi nzero nub1 ok1 in
-  bn_others d K au bn ub zero l (acc ++ rows1) ok2.
+  bn_others oc d K au bn ub zero l (acc ++ rows1) ok2.
 Proof. reflexivity. Qed.
 
 Definition bn_flag (bn : ctree -> list dnode -> list ext -> bool -> list row * bool) (chi : ctree) : Prop :=
@@ -864,26 +859,26 @@ Definition bn_flag (bn : ctree -> list dnode -> list ext -> bool -> list row * b
 
 Lemma bn_others_flag : forall bn ub zero l,
   (forall chi, In chi l -> bn_flag bn chi) ->
-  forall acc okk rows, bn_others d K au bn ub zero l acc okk = (rows, true) -> okk = true.
+  forall acc okk rows, bn_others oc d K au bn ub zero l acc okk = (rows, true) -> okk = true.
 Proof.
   intros bn ub zero l. induction l as [|chi l IH]; intros Hbn acc okk rows E.
   - cbn in E. now injection E.
   - rewrite bn_others_cons in E. cbv zeta in E.
-    destruct (copy_zero_set d au chi _ zero okk) as [[nub1 nzero] ok1] eqn:E1.
+    destruct (copy_zero_set oc d au chi _ zero okk) as [[nub1 nzero] ok1] eqn:E1.
     destruct (bn chi nzero nub1 ok1) as [rows1 ok2] eqn:E2.
     apply IH in E; [|intros c Hc; apply Hbn; now right]. subst ok2.
     apply (Hbn chi (or_introl eq_refl)) in E2. subst ok1. now apply copy_zero_set_flag in E1.
 Qed.
 
-Lemma brute_nearest_flag : forall n Q, (size Q <= n)%nat -> bn_flag (brute_nearest d K au) Q.
+Lemma brute_nearest_flag : forall n Q, (size Q <= n)%nat -> bn_flag (brute_nearest oc d K au) Q.
 Proof.
   induction n as [|n IH]; intros Q Hs; [destruct Q; cbn [size] in Hs; lia|].
   intros zero ub ok rows E. destruct Q as [p m pd sc ch]. destruct ch as [|c0 rest].
   - cbn [brute_nearest] in E. injection E as _ E. apply andb_true_iff in E. apply E.
   - cbn [brute_nearest] in E.
-    destruct (brute_nearest d K au c0 zero ub ok) as [rows0 ok0] eqn:E0.
+    destruct (brute_nearest oc d K au c0 zero ub ok) as [rows0 ok0] eqn:E0.
     cbn [size fold_right] in Hs.
-    assert (Hrest : forall chi, In chi rest -> bn_flag (fun c z u o => brute_nearest d K au c z u o) chi).
+    assert (Hrest : forall chi, In chi rest -> bn_flag (fun c z u o => brute_nearest oc d K au c z u o) chi).
     { intros chi Hc. apply IH.
       assert (Hle : forall l, In chi l -> (size chi <= fold_right (fun c a => (size c + a)%nat) O l)%nat).
       { induction l as [|a l IHl]; intros Hin; [destruct Hin|]. cbn [fold_right].
@@ -914,13 +909,13 @@ Lemma bn_others_spec : forall bn q ub zero l,
   (forall chi, In chi l -> bn_flag bn chi /\ bn_good bn chi) ->
   (forall chi, In chi l -> node_ok chi /\ dd d q (c_p chi) <= c_pard chi) -> dom q -> zero_ok q zero ->
   (forall chi q' x, In chi l -> In q' (lp chi) -> needed q' x -> in_zero zero x) ->
-  forall acc okk rows, bn_others d K au bn ub zero l acc okk = (rows, true) ->
+  forall acc okk rows, bn_others oc d K au bn ub zero l acc okk = (rows, true) ->
   exists rows', rows = acc ++ rows' /\ rows_ok (below_some l) rows'.
 Proof.
   intros bn q ub zero l. induction l as [|chi l IH]; intros Hbn Hf Hq Hz Hcov acc okk rows E.
   - cbn in E. injection E as <- _. exists []. split; [now rewrite app_nil_r|]. intros q' cands [].
   - rewrite bn_others_cons in E. cbv zeta in E.
-    destruct (copy_zero_set d au chi _ zero okk) as [[nub1 nzero] ok1] eqn:E1.
+    destruct (copy_zero_set oc d au chi _ zero okk) as [[nub1 nzero] ok1] eqn:E1.
     destruct (bn chi nzero nub1 ok1) as [rows1 ok2] eqn:E2.
     assert (Hbn' : forall c, In c l -> bn_flag bn c /\ bn_good bn c) by (intros c Hc; apply Hbn; now right).
     assert (Hf' : forall c, In c l -> node_ok c /\ dd d q (c_p c) <= c_pard c) by (intros c Hc; apply Hf; now right).
@@ -947,7 +942,7 @@ Proof.
   destruct Hin as [->|Hin]; [lia | specialize (IHl Hin); lia].
 Qed.
 
-Lemma brute_nearest_spec : forall n Q, (size Q <= n)%nat -> node_ok Q -> bn_good (brute_nearest d K au) Q.
+Lemma brute_nearest_spec : forall n Q, (size Q <= n)%nat -> node_ok Q -> bn_good (brute_nearest oc d K au) Q.
 Proof.
   induction n as [|n IH]; intros Q Hs HQ; [destruct Q; cbn [size] in Hs; lia|].
   intros zero ub ok rows E Hz Hcov. destruct Q as [p m pd sc ch]. destruct ch as [|c0 rest].
@@ -963,7 +958,7 @@ Proof.
     unfold valid_b in Hau. rewrite Hv in Hau. cbn [c_p] in Hau, Hdist. apply Nat.leb_le in Hau.
     apply (far_not_needed p (c_p (snd e)) v Hau); [lia | exact Hn].
   - cbn [brute_nearest] in E.
-    destruct (brute_nearest d K au c0 zero ub ok) as [rows0 ok0] eqn:E0.
+    destruct (brute_nearest oc d K au c0 zero ub ok) as [rows0 ok0] eqn:E0.
     cbn [size fold_right] in Hs.
     destruct (inv_children _ _ _ _ _ _ (proj1 HQ)) as [Hp Hch].
     assert (Hsz : forall chi, In chi rest -> (size chi <= n)%nat).
@@ -971,8 +966,8 @@ Proof.
     assert (Hok : forall chi, In chi (c0 :: rest) -> node_ok chi).
     { intros chi Hc. apply (node_ok_child (CN p m pd sc (c0 :: rest)) chi HQ). exact Hc. }
     assert (Hrest : forall chi, In chi rest ->
-              bn_flag (fun c z u o => brute_nearest d K au c z u o) chi /\
-              bn_good (fun c z u o => brute_nearest d K au c z u o) chi).
+              bn_flag (fun c z u o => brute_nearest oc d K au c z u o) chi /\
+              bn_good (fun c z u o => brute_nearest oc d K au c z u o) chi).
     { intros chi Hc. split.
       - apply (brute_nearest_flag n). now apply Hsz.
       - apply (IH chi); [now apply Hsz | apply Hok; now right]. }
@@ -1019,13 +1014,13 @@ Qed.
 Definition rec_t := ctree -> list centry -> list dnode -> nat -> nat -> list ext -> bool -> option (list row * bool).
 
 Lemma ib_loop_cons : forall (rec : rec_t) ub cover zero cs ms chi l acc okk,
-  ib_loop d K au rec ub cover zero cs ms (chi :: l) acc okk =
+  ib_loop oc d K au rec ub cover zero cs ms (chi :: l) acc okk =
   let nub := setter K (eadd (ub0 ub) (c_pard chi)) in
-  let '(nub1, nzero, ok1) := copy_zero_set d au chi nub zero okk in
-  let '(nub2, ncover, ok2) := copy_cover_sets d au chi nub1 cs (S ms - cs) cover ok1 in
+  let '(nub1, nzero, ok1) := copy_zero_set oc d au chi nub zero okk in
+  let '(nub2, ncover, ok2) := copy_cover_sets oc d au chi nub1 cs (S ms - cs) cover ok1 in
   match rec chi ncover nzero cs ms nub2 ok2 with
   | None => None
-  | Some (rows1, ok3) => ib_loop d K au rec ub cover zero cs ms l (acc ++ rows1) ok3
+  | Some (rows1, ok3) => ib_loop oc d K au rec ub cover zero cs ms l (acc ++ rows1) ok3
   end.
 Proof. reflexivity. Qed.
 
@@ -1034,20 +1029,20 @@ Definition rec_flag (rec : rec_t) (chi : ctree) : Prop :=
 
 Lemma ib_loop_flag : forall (rec : rec_t) ub cover zero cs ms l,
   (forall chi, In chi l -> rec_flag rec chi) ->
-  forall acc okk rows, ib_loop d K au rec ub cover zero cs ms l acc okk = Some (rows, true) -> okk = true.
+  forall acc okk rows, ib_loop oc d K au rec ub cover zero cs ms l acc okk = Some (rows, true) -> okk = true.
 Proof.
   intros rec ub cover zero cs ms l. induction l as [|chi l IH]; intros Hrec acc okk rows E.
   - cbn in E. now injection E.
   - rewrite ib_loop_cons in E. cbv zeta in E.
-    destruct (copy_zero_set d au chi _ zero okk) as [[nub1 nzero] ok1] eqn:E1.
-    destruct (copy_cover_sets d au chi nub1 cs (S ms - cs) cover ok1) as [[nub2 ncover] ok2] eqn:E2.
+    destruct (copy_zero_set oc d au chi _ zero okk) as [[nub1 nzero] ok1] eqn:E1.
+    destruct (copy_cover_sets oc d au chi nub1 cs (S ms - cs) cover ok1) as [[nub2 ncover] ok2] eqn:E2.
     destruct (rec chi ncover nzero cs ms nub2 ok2) as [[rows1 ok3]|] eqn:E3; [|discriminate].
     apply IH in E; [|intros c Hc; apply Hrec; now right]. subst ok3.
     apply (Hrec chi (or_introl eq_refl)) in E3. subst ok2.
     apply copy_cover_sets_flag in E2. subst ok1. now apply copy_zero_set_flag in E1.
 Qed.
 
-Lemma internal_batch_flag : forall fuel Q, rec_flag (internal_batch d K au fuel) Q.
+Lemma internal_batch_flag : forall fuel Q, rec_flag (internal_batch oc d K au fuel) Q.
 Proof.
   induction fuel as [|f IH]; intros Q cover zero cs ms ub ok rows E; [discriminate|].
   cbn [internal_batch] in E.
@@ -1055,9 +1050,9 @@ Proof.
   - injection E as E. apply (brute_nearest_flag (size Q) Q (Nat.le_refl _)) in E. exact E.
   - destruct (Nat.leb (c_scale Q) cs && negb (Nat.eqb (c_scale Q) 100)).
     + destruct (c_ch Q) as [|c0 rest]; [discriminate|].
-      destruct (ib_loop d K au (internal_batch d K au f) ub cover zero cs ms rest [] ok) as [[rows1 ok1]|] eqn:E1;
+      destruct (ib_loop oc d K au (internal_batch oc d K au f) ub cover zero cs ms rest [] ok) as [[rows1 ok1]|] eqn:E1;
         [|discriminate].
-      destruct (internal_batch d K au f c0 cover zero cs ms ub ok1) as [[rows0 ok2]|] eqn:E0; [|discriminate].
+      destruct (internal_batch oc d K au f c0 cover zero cs ms ub ok1) as [[rows0 ok2]|] eqn:E0; [|discriminate].
       injection E as _ ->. apply IH in E0. subst ok1.
       apply (ib_loop_flag _ ub cover zero cs ms rest (fun c _ => IH c)) in E1. exact E1.
     + apply IH in E. now apply descend_flag in E.
@@ -1072,14 +1067,14 @@ Lemma ib_loop_spec : forall (rec : rec_t) q ub cover zero cs ms l,
   (forall chi, In chi l -> node_ok chi /\ dd d q (c_p chi) <= c_pard chi) -> dom q ->
   zero_ok q zero -> cover_ok q cs ms cover -> (cs <= ms)%nat ->
   (forall chi q' x, In chi l -> In q' (lp chi) -> needed q' x -> covered cover zero cs x) ->
-  forall acc okk rows, ib_loop d K au rec ub cover zero cs ms l acc okk = Some (rows, true) ->
+  forall acc okk rows, ib_loop oc d K au rec ub cover zero cs ms l acc okk = Some (rows, true) ->
   exists rows', rows = acc ++ rows' /\ rows_ok (below_some l) rows'.
 Proof.
   intros rec q ub cover zero cs ms l. induction l as [|chi l IH]; intros Hrec Hf Hq Hz Hc Hcs Hcov acc okk rows E.
   - cbn in E. injection E as <-. exists []. split; [now rewrite app_nil_r|]. intros q' cands [].
   - rewrite ib_loop_cons in E. cbv zeta in E.
-    destruct (copy_zero_set d au chi _ zero okk) as [[nub1 nzero] ok1] eqn:E1.
-    destruct (copy_cover_sets d au chi nub1 cs (S ms - cs) cover ok1) as [[nub2 ncover] ok2] eqn:E2.
+    destruct (copy_zero_set oc d au chi _ zero okk) as [[nub1 nzero] ok1] eqn:E1.
+    destruct (copy_cover_sets oc d au chi nub1 cs (S ms - cs) cover ok1) as [[nub2 ncover] ok2] eqn:E2.
     destruct (rec chi ncover nzero cs ms nub2 ok2) as [[rows1 ok3]|] eqn:E3; [|discriminate].
     assert (Hrec' : forall c, In c l -> rec_flag rec c /\ rec_good rec c) by (intros c Hc'; apply Hrec; now right).
     assert (Hf' : forall c, In c l -> node_ok c /\ dd d q (c_p c) <= c_pard c) by (intros c Hc'; apply Hf; now right).
@@ -1113,7 +1108,7 @@ Proof.
     + apply (rows_ok_weaken (below_some l)); [|assumption]. intros q0 [c [Hc' H0]]. exists c. split; [now right | exact H0].
 Qed.
 
-Lemma internal_batch_spec : forall fuel Q, node_ok Q -> rec_good (internal_batch d K au fuel) Q.
+Lemma internal_batch_spec : forall fuel Q, node_ok Q -> rec_good (internal_batch oc d K au fuel) Q.
 Proof.
   induction fuel as [|f IH]; intros Q HQ cover zero cs ms ub ok rows E Hz Hc Hcov; [discriminate|].
   cbn [internal_batch] in E.
@@ -1127,9 +1122,9 @@ Proof.
     destruct (Nat.leb (c_scale Q) cs && negb (Nat.eqb (c_scale Q) 100)).
     + (* the query node is split among its children *)
       destruct Q as [p m pd sc ch]. cbn [c_ch] in E. destruct ch as [|c0 rest]; [discriminate|].
-      destruct (ib_loop d K au (internal_batch d K au f) ub cover zero cs ms rest [] ok) as [[rows1 ok1]|] eqn:E1;
+      destruct (ib_loop oc d K au (internal_batch oc d K au f) ub cover zero cs ms rest [] ok) as [[rows1 ok1]|] eqn:E1;
         [|discriminate].
-      destruct (internal_batch d K au f c0 cover zero cs ms ub ok1) as [[rows0 ok2]|] eqn:E0; [|discriminate].
+      destruct (internal_batch oc d K au f c0 cover zero cs ms ub ok1) as [[rows0 ok2]|] eqn:E0; [|discriminate].
       injection E as <- ->.
       pose proof (internal_batch_flag f c0 _ _ _ _ _ _ _ E0) as Hok1. subst ok1.
       destruct (inv_children _ _ _ _ _ _ (proj1 HQ)) as [Hp Hch].
@@ -1137,7 +1132,7 @@ Proof.
       { intros chi Hc'. apply (node_ok_child (CN p m pd sc (c0 :: rest)) chi HQ). exact Hc'. }
       cbn [c_p] in Hz, Hc.
       assert (Hrec : forall chi, In chi rest ->
-                rec_flag (internal_batch d K au f) chi /\ rec_good (internal_batch d K au f) chi).
+                rec_flag (internal_batch oc d K au f) chi /\ rec_good (internal_batch oc d K au f) chi).
       { intros chi Hc'. split; [apply internal_batch_flag | apply IH; apply Hok; now right]. }
       assert (Hf : forall chi, In chi rest -> node_ok chi /\ dd d p (c_p chi) <= c_pard chi).
       { intros chi Hc'. split; [apply Hok; now right | apply (Hch chi); now right]. }
@@ -1165,7 +1160,7 @@ Qed.
 
 (* ---------- the whole query ---------- *)
 Lemma ct_query_spec : forall fuel top rows,
-  ct_query d K au fuel top = Some (rows, true) ->
+  ct_query oc d K au fuel top = Some (rows, true) ->
   node_ok top -> is_leaf top = false -> incl pts (lp top) ->
   rows_ok (below top) rows.
 Proof.
@@ -1184,7 +1179,7 @@ End Complete.
 Theorem ct_query_complete_partial_lemma : forall d dom top K fuel rows,
   metric_on dom d -> (forall x, In x (leaf_points top) -> dom x) ->
   ct_inv_b d top = true -> is_leaf top = false ->
-  ct_query d K (valid_b d (leaf_points top) K) fuel top = Some (rows, true) ->
+  ct_query false d K (valid_b d (leaf_points top) K) fuel top = Some (rows, true) ->
   forall q cands, In (q, cands) rows ->
     In q (leaf_points top) /\
     forall x, In x (leaf_points top) ->
